@@ -31,15 +31,15 @@ ASSUMPTIONS = [
     "deterministic clock/uuid seams",
 ]
 
-SCHEMA = {"m": [("api", 2)], "a": [("typed", 2), ("exit", 2), ("style", 2)]}
-API_MAP = [0, 4]
+SCHEMA = {"m": [("api", 4)], "a": [("typed", 2), ("exit", 2), ("style", 2)]}
+API_MAP = [0, 4, 5, 7]  # log_message, typed message, write_traceback (eliot:traceback), typed message whose serializer raises (eliot:traceback + eliot:serialization_failure)
 DSETS = ["F", "FH", "HF", "FF", "FHF", "FFH"]
 
 
 def BOUNDS(tier):
     if tier == "quick":
-        return {"max_nodes": 3, "devs": 1, "raises": 2, "kinds_first": 4, "kinds_later": 1, "max_primary": 5}
-    return {"max_nodes": 3, "devs": 1, "raises": 3, "kinds_first": 4, "kinds_later": 1, "max_primary": 6}
+        return {"max_nodes": 3, "devs": 1, "raises": 2, "kinds_first": 5, "kinds_later": 1, "max_primary": 5}
+    return {"max_nodes": 3, "devs": 1, "raises": 3, "kinds_first": 5, "kinds_later": 1, "max_primary": 6}
 
 
 _PROGS = {}
@@ -75,12 +75,22 @@ def units(tier):
     pre = 1 if tier == "quick" else 2
     out += [["thr", hi, pre, k] for hi in range(len(THR_HARNESSES)) for k in range(THR_SHARDS)]
     out.append(["other-logger"])
+    out += [["scenario", n] for n in C08_SCENARIOS]
     return out
+
+
+# legal but unusual destinations (shared with C12): destinations that compare equal, a destination that
+# removes itself or registers another one while it is being called
+C08_SCENARIOS = ["equal-destinations-one-call", "equal-destinations-back-to-back",
+                 "destination-removes-itself-while-live", "destination-registers-another-while-called"]
 
 
 def cases(unit, tier):
     if unit[0] == "other-logger":
         yield {"other_logger": 1}
+        return
+    if unit[0] == "scenario":
+        yield {"scenario": unit[1]}
         return
     if unit[0] == "thr":
         yield {"thr": unit[1:]}
@@ -91,7 +101,7 @@ def cases(unit, tier):
 
 
 def DETERMINISM_REPLAY(case):
-    return "thr" not in case
+    return "thr" not in case and "scenario" not in case
 
 
 def run_thr(hi, bound, shard):
@@ -157,6 +167,7 @@ def run_thr(hi, bound, shard):
 STRATEGIES = {
     "always": lambda i, lab: 1,
     "always-strraises": lambda i, lab: 4,
+    "always-moduleless": lambda i, lab: 5,
     "reports-only": lambda i, lab: 2 if lab[1] == "report" else 0,
     "primaries-only": lambda i, lab: 3 if lab[1] == "primary" else 0,
     "alternate": lambda i, lab: 1 if i % 2 == 0 else 0,
@@ -332,6 +343,11 @@ def run_other_logger():
 
 
 def run_case(case):
+    if "scenario" in case:
+        from props import c12_buffering
+
+        v = c12_buffering.run_scenario(case["scenario"])
+        return Result(outcome=["scenario", case["scenario"], len(v)], nontrivial=True, states=1, transitions=1, violations=v[:3])
     if "other_logger" in case:
         v = run_other_logger()
         return Result(outcome=["other-logger", len(v)], states=1, transitions=1, violations=v)
